@@ -518,6 +518,39 @@ def build_conv_items(ctx, gen, n_fresh, n_texts):
     return items
 
 
+def build_scalar_conv_items(ctx, n):
+    """convert / unconvert items on the scalar element types whose result could depend on ambient state: Decimal
+    with a scale (quantize consults the thread's decimal context: rounding ties), Integer, Bool, String"""
+    from ofxtools import Types
+    from corr import types_common as T
+    rng = ctx.rng
+    convs = [Types.Decimal(sc) for sc in (0, 1, 2, 2, 3, 4)] + [Types.Decimal(), Types.Integer(4), Types.Bool(), Types.String(8)]
+    ties = ["12345.665", "0.5", "1.5", "2.5", "-2.5", "0.125", "0.135", "-1.005", "1.00005", "2.675", "0.045", "7.5", "1e1",
+            "1,25", "0.00015", "99.995", "-0.5"]
+    items = []
+    for _ in range(n):
+        conv = rng.choice(convs)
+        kind, _req = T.kind_of(conv, None)
+        ty = text(kind) if not isinstance(kind, str) else kind
+        tn = type(conv).__name__
+        if tn == "Decimal":
+            if rng.random() < 0.7:
+                v = rng.choice(ties) if rng.random() < 0.7 else T.gen_dec_text(rng)
+                if not T.text_in_model_domain(kind, v):
+                    continue
+                items.append(Item("conv", "decimal", conv, (ty, v), desc="fresh"))
+            else:
+                v = decimal.Decimal(rng.choice(ties).replace(",", "."))
+                items.append(Item("conv", "decimal", conv, (ty, v), desc="fresh"))
+        elif tn == "Integer":
+            items.append(Item("conv", "integer", conv, (ty, rng.choice(["12", "-7", "9999", "10000", "0012", 5, "x"])), desc="fresh"))
+        elif tn == "Bool":
+            items.append(Item("conv", "bool", conv, (ty, rng.choice(["Y", "N", "y", True, "", None])), desc="fresh"))
+        else:
+            items.append(Item("conv", "string", conv, (ty, rng.choice(["a&amp;b", "12345678", "123456789", "é", ""])), desc="fresh"))
+    return items
+
+
 # ------------------------------------------------------------------------------------------------------
 # workloads: library activity whose results are thrown away
 # ------------------------------------------------------------------------------------------------------
@@ -831,6 +864,7 @@ def _run(ctx):
         reps = 2
     items = build_items(ctx, env, gen, sel, reps)
     items += build_conv_items(ctx, gen, 12, ctx.budget(400, 2000))
+    items += build_scalar_conv_items(ctx, ctx.budget(150, 800))
     # lanes for the aligned thread plans: per class one input set per thread
     aligned = {}
     by = {c["name"]: c for c in classes}
@@ -880,6 +914,38 @@ def _run(ctx):
     if prob:
         ctx.violate("dispatch_registry_not_inert", {"after": "workloads", "problems": prob[:5]},
                     "a dispatch registry is no longer observationally what it was at import: " + prob[0])
+
+    # (b') a systematic failing history: every class's own rejection paths (no arguments at all, an empty element,
+    # a valid document stripped of its repeated members / of everything but its first child — the inputs that reach
+    # the hand-written `validate_args` error branches), then every item again
+    n_rej = 0
+    for it0 in [x for x in items if x.kind == "totree"]:
+        inst = it0.inp
+        kcls = type(inst)
+        attempts = [lambda: kcls(), lambda: env.Aggregate.from_etree(ET.Element(kcls.__name__))]
+        try:
+            tree = inst.to_etree()
+            lm = {a["name"].upper() for a in by[kcls.__name__]["spec"] if a["k"] in ("listagg", "listelem")} if kcls.__name__ in by else set()
+            t1 = copy.deepcopy(tree)
+            for ch in list(t1):
+                if ch.tag in lm:
+                    t1.remove(ch)
+            t2 = copy.deepcopy(tree)
+            for ch in list(t2)[1:]:
+                t2.remove(ch)
+            attempts += [lambda t1=t1: env.Aggregate.from_etree(t1), lambda t2=t2: env.Aggregate.from_etree(t2),
+                         lambda: kcls(**{k: v for k, v in inst.__dict__.items() if v is not None})]
+        except Exception:   # noqa
+            pass
+        for f in attempts:
+            try:
+                f()
+            except Exception:   # noqa
+                n_rej += 1
+    ctx.stat("rejection-history:rejected", n_rej)
+    for it in items:
+        res, notes = exec_item(env, it)
+        judge(ctx, it, res, notes, "after-rejections", {"history": "every class: no arguments / empty element / stripped documents", "threads": 1})
 
     tc = time.time()
     ctx.notes.append(f"after-history runs {round(tc - tb, 1)} s")
